@@ -150,7 +150,8 @@ def image_map_from_string(input_string):
 
     try:
         return imagemap.parseString(input_string)[0]
-    except ParseException:
+    except (ParseException, ValueError):
+        # ValueError: a coordinate with more digits than int() accepts
         return ImageMap(entries=[], image=None)
 
 
